@@ -301,6 +301,14 @@ func rsProxyRun(px *pxState, base, backend string, seed uint64, workers, ops int
 		tag := "\"t" + r.URL.Path + "\""
 		w.Header().Set("Cache-Control", "max-age=60")
 		w.Header().Set("ETag", tag)
+		// multi-line fields the proxy itself appends to (Via, Cache-Status, X-Cache): stored value slices with spare
+		// capacity are where an aliasing copy would make concurrent hits write the same backing array
+		for _, v := range []string{"1.1 a", "1.1 b", "1.1 c"} {
+			w.Header().Add("Via", v)
+			w.Header().Add("Cache-Status", "up-"+v[4:]+"; hit")
+			w.Header().Add("X-Cache", "UP-"+v[4:])
+			w.Header().Add("Vary", "X-"+v[4:])
+		}
 		if r.Header.Get("If-None-Match") == tag {
 			w.WriteHeader(304)
 			return
